@@ -8,7 +8,7 @@ static void build_rich() {
     std::vector<GCase> all;
     build_family(all, "all", true);
     const std::pair<const char*, const char*> pick[] = {
-        {"xsd-annotation", "all positions body 2 [tns]"},
+        {"xsd-annotation", "all positions except notation body 2 [tns]"},
         {"xsd-namespace-import", "efd=qualified afd=unqualified mode1 [tns]"},
         {"mixed-pool", "variant 3"},
         {"dtd-entity-notation", "0,1,2,3,4,5,6,7,8,"},
@@ -66,8 +66,8 @@ static GCase pad_case(const GCase& base, int mode, int L) {
 
 struct PadCase { int rich, mode, L; };
 static std::vector<PadCase> PADS;
-static void build_pads(int lo, int hi, int step, const std::vector<int>& modes) {
-    for (size_t r = 0; r < RICH.size(); r++) for (int m : modes) {
+static void build_pads(int lo, int hi, int step, const std::vector<int>& modes, size_t nrich) {
+    for (size_t r = 0; r < RICH.size() && r < nrich; r++) for (int m : modes) {
         if (!pad_applicable(RICH[r], m)) continue;
         for (int L = lo; L < hi; L += step) PADS.push_back({(int)r, m, L});
     }
@@ -109,29 +109,40 @@ static void run_trunc_case(uint64_t idx, Ctx& c) {
     c.count("grammars_loaded");
     std::string sa, exc;
     if (!pool_serialize(A.p, sa, exc)) { c.violation("serialize-exception", "\"label\":" + jstr(g.label) + ",\"exception\":" + jstr(exc)); return; }
-    std::string da = pool_dump(A.p, nullptr);
+    // reference: the pool restored from the complete stream
+    Pool B;
+    exc = pool_deserialize(B.p, sa);
+    if (!exc.empty()) { c.violation("deserialize-exception", "\"label\":" + jstr(g.label) + ",\"exception\":" + jstr(exc)); return; }
+    std::string db = pool_dump(B.p, nullptr);
     c.count("trunc_blocks:" + std::to_string(sa.size() / 8192));
+    size_t dataEnd = sa.size();
+    while (dataEnd > 0 && sa[dataEnd - 1] == 0) dataEnd--;
+    bool first = true;
     for (size_t cut : cut_ladder(sa.size())) {
         Pool T;
         std::string e = pool_deserialize(T.p, sa.substr(0, cut));
         c.count("truncated_streams");
         if (cut % 8192 == 0 && cut > 0) c.count("truncated_at_block_boundary");
+        if (cut % 8192 == 0 && cut > 0 && cut < dataEnd) c.count("truncated_at_block_boundary_inside_data");
+        const std::string in = "\"label\":" + jstr(g.label) + ",\"cut\":" + std::to_string(cut) + ",\"total\":" + std::to_string(sa.size()) + ",\"last_nonzero_byte\":" + std::to_string(dataEnd);
         if (e.empty()) {
-            // only legitimate when nothing was lost: the pool must then be identical
+            // only legitimate when nothing was lost: the cut removed nothing but zero padding, and the pool is identical
             std::string dt = pool_dump(T.p, nullptr);
-            if (dt == da) c.count("truncated_stream_complete_anyway");
-            else c.violation("truncated-stream-accepted", "\"label\":" + jstr(g.label) + ",\"cut\":" + std::to_string(cut) + ",\"total\":" + std::to_string(sa.size()) + ",\"diff\":" + jstr(first_diff(da, dt)));
+            if (dt == db && cut >= dataEnd) c.count("truncated_only_zero_padding_accepted");
+            else c.violation("truncated-stream-accepted", in + ",\"diff\":" + jstr(first_diff(db, dt)));
         } else if (e.compare(0, 8, "FOREIGN:") == 0) {
-            c.violation("truncated-stream-foreign-exception", "\"label\":" + jstr(g.label) + ",\"cut\":" + std::to_string(cut) + ",\"exception\":" + jstr(e));
+            c.violation("truncated-stream-foreign-exception", in + ",\"exception\":" + jstr(e));
         } else {
             size_t p = e.find(':'), q = e.find(':', p + 1);
             c.count("truncated_rejected:" + e.substr(0, q == std::string::npos ? e.size() : q));
-            // after a rejected load the pool must be empty and usable again
             RefHashTableOfEnumerator<Grammar> en = T.p->getGrammarEnumerator();
-            if (en.hasMoreElements()) c.count("pool_not_empty_after_rejected_stream");
-            std::string e2 = pool_deserialize(T.p, sa);
-            if (e2.empty()) { if (pool_dump(T.p, nullptr) == da) c.count("pool_reusable_after_rejected_stream"); else c.violation("pool-corrupt-after-rejected-stream", "\"label\":" + jstr(g.label) + ",\"cut\":" + std::to_string(cut)); }
-            else c.count("pool_refuses_second_deserialize:" + e2.substr(0, 60));
+            if (en.hasMoreElements()) c.violation("pool-not-empty-after-rejected-stream", in);
+            if (first || cut % 8192 == 0) {   // can the pool be loaded again after a rejected stream? (documented as not guaranteed: counted, not judged)
+                std::string e2 = pool_deserialize(T.p, sa);
+                if (e2.empty()) { if (pool_dump(T.p, nullptr) == db) c.count("pool_reusable_after_rejected_stream"); else c.violation("pool-corrupt-after-rejected-stream", in); }
+                else c.count("pool_refuses_second_deserialize:" + e2.substr(0, 70));
+            }
+            first = false;
         }
     }
     if (idx % 997 == 0) c.sample("{\"label\":" + jstr(g.label) + ",\"stream_bytes\":" + std::to_string(sa.size()) + "}");
@@ -141,7 +152,7 @@ static void run_trunc_case(uint64_t idx, Ctx& c) {
 struct LevelCase { int rich; uint32_t value; std::string how; };
 static std::vector<LevelCase> LEVELS;
 static uint32_t g_cur_level = 0;
-static void build_levels() {
+static void build_levels(bool thorough) {
     // current level = first 4 bytes of any stream produced by this build
     Ctx dummy;
     Pool A;
@@ -151,6 +162,7 @@ static void build_levels() {
     if (sa.size() < 4) { fprintf(stderr, "cannot serialize probe pool: %s\n", exc.c_str()); exit(2); }
     memcpy(&g_cur_level, sa.data(), 4);
     for (size_t r = 0; r < RICH.size(); r++) {
+        if (!thorough && !(r == 0 || r == 2 || r == 3)) continue;   // quick: a schema pool, a mixed pool, a DTD pool
         for (uint32_t v = 0; v < 16; v++) if (v != g_cur_level) LEVELS.push_back({(int)r, v, "value " + std::to_string(v)});
         for (int b = 0; b < 32; b++) LEVELS.push_back({(int)r, g_cur_level ^ (1u << b), "bit " + std::to_string(b) + " flipped"});
         LEVELS.push_back({(int)r, g_cur_level, "unchanged (control)"});
@@ -178,15 +190,16 @@ static void run_level_case(uint64_t idx, Ctx& c) {
     }
     c.count("level_mutations");
     if (e.empty()) c.violation("foreign-level-accepted", in);
-    else if (e.compare(0, 36, "XMLException:XSerializationException:") == 0 || e.compare(0, 35, "XMLException:XSerializationException") == 0) c.count("level_rejected_with_XSerializationException");
+    else if (e.rfind("XMLException:XSerializationException", 0) == 0) c.count("level_rejected_with_XSerializationException");
     else c.violation("foreign-level-wrong-exception", in + ",\"expected\":\"XSerializationException\",\"observed\":" + jstr(e));
     RefHashTableOfEnumerator<Grammar> en = T.p->getGrammarEnumerator();
     if (en.hasMoreElements()) c.violation("pool-not-empty-after-level-mismatch", in);
 }
 
 // ------------------------------------------------------------------------------------------------ locked pools
+static std::vector<int> LOCKED;
 static void run_locked_case(uint64_t idx, Ctx& c) {
-    const GCase& g = RICH[idx];
+    const GCase& g = RICH[LOCKED[idx]];
     const std::string in = "\"grammar\":" + case_json(g) + ",\"scenario\":\"pool locked with lockPool() before serializeGrammars\"";
     Pool A;
     if (!load_case(g, A.p, c)) { c.count("grammar_rejected_at_load"); return; }
@@ -217,7 +230,8 @@ static bool setup_space(const std::string& space, const Args& a, bool thorough, 
         std::vector<int> modes;
         std::string ms = a.str("modes", space == "ladder" ? "1,2,3,4" : "1,2");
         for (char ch : ms) if (ch >= '0' && ch <= '9') modes.push_back(ch - '0');
-        build_pads(lo, hi, step, modes);
+        build_pads(lo, hi, step, modes, (size_t)a.num("rich", thorough ? 8 : 4));
+        g_sax_only = a.num("sax-only", 0) != 0;
         R.total = PADS.size();
         R.fn = space == "ladder" ? run_ladder_case : run_trunc_case;
         R.describe = [](uint64_t i) { return case_json(pad_case(RICH[PADS[i].rich], PADS[i].mode, PADS[i].L)); };
@@ -225,7 +239,7 @@ static bool setup_space(const std::string& space, const Args& a, bool thorough, 
         return true;
     }
     if (space == "level") {
-        build_levels();
+        build_levels(thorough);
         R.total = LEVELS.size();
         R.fn = run_level_case;
         R.describe = [](uint64_t i) { return "{\"label\":" + jstr(RICH[LEVELS[i].rich].label) + ",\"mutation\":" + jstr(LEVELS[i].how) + "}"; };
@@ -233,9 +247,13 @@ static bool setup_space(const std::string& space, const Args& a, bool thorough, 
         return true;
     }
     if (space == "locked") {
-        R.total = RICH.size();
+        // quick: one schema pool with user-defined simple types, one DTD pool, one schema pool without user-defined simple types (a crashing
+        // case costs ~10 s of sanitizer report symbolisation); thorough: all rich grammars
+        if (thorough) for (size_t i = 0; i < RICH.size(); i++) LOCKED.push_back((int)i);
+        else LOCKED = {0, 3, 4};
+        R.total = LOCKED.size();
         R.fn = run_locked_case;
-        R.describe = [](uint64_t i) { return "{\"scenario\":\"lockPool() before serializeGrammars, then deserializeGrammars\",\"grammar\":" + case_json(RICH[i]) + "}"; };
+        R.describe = [](uint64_t i) { return "{\"scenario\":\"lockPool() before serializeGrammars, then deserializeGrammars\",\"grammar\":" + case_json(RICH[LOCKED[i]]) + "}"; };
         return true;
     }
     return false;
